@@ -375,7 +375,8 @@ def changed_library_containers(libdiff):
     # distinguishes search states (what it remembers is judged through the results of later calls), it is not a
     # violation in itself -- a maintainer may add such a memo without breaking the property
     memo = {str(name) for name, obj, saved in (libstate.LIB_STATE or ()) if not saved}
-    return sorted(names - lazy - memo)
+    # the fill level of function caches (functools.lru_cache on a library function) is memo state as well
+    return sorted(n for n in names - lazy - memo if not n.endswith('#cache'))
 
 
 # ------------------------------------------------------------------ the shared parser's memory
